@@ -491,6 +491,9 @@ func (w *bWorld) vexec(thread *starlark.Thread, fn *starlark.Builtin, args starl
 	w.mu.Unlock()
 	w.crashPoint("body.begin", name)
 	if failing {
+		// a failing body leaves a partial output behind
+		os.MkdirAll(filepath.Join(w.dir, "out"), 0755)
+		os.WriteFile(filepath.Join(w.dir, "out", name+".txt"), []byte("partial:"+content), 0644)
 		w.logEvent("ExecEnd", "l", name, "ok", false, "env", env.String(), "srcs", srcs, "missing", missing)
 		return nil, fmt.Errorf("body of %s failed by plan", name)
 	}
@@ -741,7 +744,19 @@ func (w *bWorld) build(st *bStep) {
 			w.proj = nil
 			return
 		}
-		w.logEvent("Load", "ok", true)
+		if st.Index {
+			// an index written by dawn for this project lists its targets: a load that prefers the
+			// index and comes back with none did not load the persisted state
+			nfun := 0
+			for _, t := range proj.Targets() {
+				if t.Label().Kind == "" || t.Label().Kind == "target" {
+					nfun++
+				}
+			}
+			w.logEvent("Load", "ok", true, "index", true, "ntargets", nfun, "declared", len(w.shape.Targets))
+		} else {
+			w.logEvent("Load", "ok", true)
+		}
 	}
 	w.proj = proj
 	if st.GC {
@@ -949,6 +964,13 @@ func (w *bWorld) apply(c *bCase, st *bStep, exe string) error {
 	switch st.Op {
 	case "watch":
 		return w.watch(c, st, exe)
+	case "revert_env":
+		// the previous edit of the target's env atom is undone
+		if w.envVer[st.T] > 1 {
+			w.envVer[st.T]--
+		}
+		w.logEvent("Edit", "kind", "env", "t", st.T, "v", w.envToken(st.T), "mates", w.mates(st.T))
+		return w.writeBuildFiles()
 	case "edit_env":
 		w.envVer[st.T]++
 		mates := w.mates(st.T)
@@ -1289,6 +1311,7 @@ func TestVerifBuild(t *testing.T) {
 	sc := bufio.NewScanner(f)
 	sc.Buffer(make([]byte, 1<<20), 1<<26)
 	idx := -1
+	skipUntil := os.Getenv("VERIF_SKIP_UNTIL")
 	for sc.Scan() {
 		idx++
 		if nshards > 1 && idx%nshards != shard {
@@ -1298,6 +1321,14 @@ func TestVerifBuild(t *testing.T) {
 		if err := json.Unmarshal(sc.Bytes(), &c); err != nil {
 			t.Fatalf("bad case: %v", err)
 		}
+		if skipUntil != "" {
+			if c.ID == skipUntil {
+				skipUntil = ""
+			}
+			continue
+		}
+		// the case in flight, for the driver: a fatal error inside dawn kills this process
+		os.WriteFile(out+".cur", []byte(c.ID), 0644)
 		w, err := runBuildHistory(&c, c.Steps, base, exe)
 		tr := &bTrace{ID: c.ID, Cfg: monCfg(&c.Shape), Steps: c.Steps}
 		if err != nil {
